@@ -430,6 +430,10 @@ class CoreEnforcer:
         if "m" not in self.model["m"].keys():
             raise RuntimeError("model is undefined")
 
+        effector = self.eft
+        if etype != "e":
+            effector = get_effector(self.model["e"][etype].value)
+
         r_tokens = self.model["r"][rtype].tokens
         p_tokens = self.model["p"][ptype].tokens
 
@@ -487,7 +491,7 @@ class CoreEnforcer:
                 else:
                     policy_effects.add(Effector.ALLOW)
 
-                if self.eft.intermediate_effect(policy_effects) != Effector.INDETERMINATE:
+                if effector.intermediate_effect(policy_effects) != Effector.INDETERMINATE:
                     explain_index = i
                     break
 
@@ -507,7 +511,7 @@ class CoreEnforcer:
             else:
                 policy_effects.add(Effector.INDETERMINATE)
 
-        final_effect = self.eft.final_effect(policy_effects)
+        final_effect = effector.final_effect(policy_effects)
         result = effect_to_bool(final_effect)
 
         # Log request.
